@@ -67,7 +67,8 @@ def locate_states(obs, ref, check_smap=True):
                 raise Mismatch(f"layout: unique initial value {v} of {name} found at {hits}, state map says {p}")
         else:
             if counts[v] != 1:
-                raise Mismatch(f"harness: initial value {v} of {name} is not unique and the state map does not name it")
+                raise Mismatch(f"layout: declared state variable {name} is not named in the returned state map "
+                               f"{sorted(smap)[:12]} (and its initial value {v} is not unique, so it cannot be located)")
             if len(hits) != 1:
                 raise Mismatch(f"layout: initial value {v} of state variable {name} occurs {len(hits)} times in the "
                                f"returned initial state {y0.tolist()[:40]} (expected exactly once)")
